@@ -23,3 +23,20 @@ Theorem C12_buffer_ownership : forall (C P : Type) (process : C -> nat -> C * op
   reachable C P process (init C P n c) s -> Own C P s.
 Proof. intros C P process n c s Hr. exact (proj1 (reachable_inv C P process n c s Hr)). Qed.
 Print Assumptions C12_buffer_ownership.
+
+(* buffer LENGTHS: the receive loop reads into whatever slice the pool hands out.  Every Put in the pipelines re-slices to
+   the pool's full size and every New makes a slice of that size (regenerated from the source, Gen/Pools.v); then every slice
+   handed out has the full size, whatever the order of operations - a datagram is never truncated by a recycled buffer *)
+From VF Require Model.PoolSize Proofs.PoolSizeProofs Gen.Pools.
+Theorem C12_pool_slices_are_put_back_full_size : forall f p o ok, In (f, p, o, ok) Gen.Pools.pool_uses -> ok = true.
+Proof.
+  assert (H : forallb (fun x => snd x) Gen.Pools.pool_uses = true) by (vm_compute; reflexivity).
+  intros f p o ok Hin. rewrite forallb_forall in H. exact (H _ Hin).
+Qed.
+Print Assumptions C12_pool_slices_are_put_back_full_size.
+
+Theorem C12_pool_hands_out_full_size : forall size ops p,
+  Forall (fun l => l = size) p -> Forall (fun o => match o with PoolSize.PPut l => l = size | _ => True end) ops ->
+  Forall (fun out => match out with Some l => l = size | None => True end) (PoolSize.pool_run size p ops).
+Proof. exact PoolSizeProofs.pool_hands_out_full_size. Qed.
+Print Assumptions C12_pool_hands_out_full_size.
